@@ -676,3 +676,54 @@ def clockable_leaves(obj):
     for k in kids:
         out += clockable_leaves(k)
     return out
+
+
+# --------------------------------------------------------------------------- size-parameter families (C09 'size' jobs)
+# every block with a size parameter (stages, depth, address width, modulus, divide ratio, sequence length) also at sizes
+# around and beyond the small values above (powers of two -1/+0/+1, a few large ones), with every combination of its optional
+# ports.  Separate from configs(): these are driven with size-scaled histories (fill >= size, stall with reset pulses while
+# disabled, drain >= size), not with the fixed-length random ones, and they are not part of the C10 workload.
+
+_NEAR_POW2 = (15, 16, 17, 31, 32, 33, 63, 64, 65)
+
+
+def _size_family(tier):
+    q = tier != 'thorough'
+    out = []
+    dl = (31, 32, 33, 40, 64, 100) if q else (0, 1, 2, 7, 8, 9, 15, 16, 17, 31, 32, 33, 34, 40, 63, 64, 65, 100, 128, 200)
+    for d in dl:
+        for he in (0, 1):
+            for hr in (0, 1):
+                if q and (he, hr) != (1, 1) and d not in (32, 33):
+                    continue
+                out.append(('DelayLine', (8 if d % 2 else 3, d, he, hr), d))
+    for d in ((16, 33, 64) if q else _NEAR_POW2 + (100,)):
+        out.append(('ShiftRegisterBidirectional', (4, d), d))
+        out.append(('Stack_ShiftRegister', (4, d), d))
+    for k in ((5, 6) if q else (4, 5, 6, 7, 8)):
+        for m in ((1 << k) - 1, 1 << k, (1 << k) + 1):
+            out.append(('ModuloCounter', (k + 1, m), m))
+            out.append(('ClockDivider', (2 * m, 1, 1), m))
+    for w in ((5, 6) if q else (4, 5, 6, 7, 8, 9)):
+        for r in (0, 1):
+            for i in (0, 1):
+                if q and (r, i) == (0, 0):
+                    continue
+                out.append(('Counter', (w, r, i), 1 << w))
+        out.append(('StepUpCounter', (w, w, 1), 1 << w))
+    for n in ((31, 33) if q else (15, 16, 17, 31, 32, 33, 64, 65, 100)):
+        out.append(('Sequence', (8, tuple((7 * k + 1) & 255 for k in range(n)), 0), n))
+        out.append(('Sequence', (8, tuple((5 * k + 3) & 255 for k in range(n)), 1), n))
+        out.append(('PipelinePhase', ((1,) * n,), n))
+    for aw in ((6, 7) if q else (5, 6, 7, 8, 9, 10)):      # the library refuses address widths above 10
+        out.append(('SynchronousMemory', (aw, 8), 1 << aw))
+        out.append(('DualPortSynchronousMemory', (aw, 8), 1 << aw))
+    return [(by_name(n), c, s) for n, c, s in out]
+
+
+def size_family(tier):
+    """-> [(entry, cfg, size)]"""
+    return _size_family(tier)
+
+
+RESET_LIKE = ('r', 'reset')
